@@ -222,7 +222,8 @@ func runInsp(w *out.W, tier string) {
 	run := func(g *gen, cfg planCfg, cs []dchange, desc string) {
 		id++
 		caseNames = g.names
-		runPlanCase(w, fmt.Sprintf("n%d", id), cfg, cs, false, "insp,"+desc, true)
+		// the TiDB planner plans one ALTER per sub-change (flat): oracle only, no skeleton tie
+		runPlanCase(w, fmt.Sprintf("n%d", id), cfg, cs, false, "insp,"+desc, cfg.plannerName != "tidb")
 	}
 	reps := 1
 	if tier == "thorough" {
@@ -286,9 +287,10 @@ func runInsp(w *out.W, tier string) {
 				}
 			}
 		}
-		// (b) both dialects: every top-level change kind and every ModifyTable sub-change kind on a
+		// (b) the MySQL family (mysql.DefaultPlan, MariaDB and TiDB planners of mysql.Open) and PostgreSQL: every top-level change kind and every ModifyTable sub-change kind on a
 		// decorated table (PG: with an inspected serial and an identity column)
-		for _, pg := range []bool{false, true} {
+		for _, fam := range []string{"mysql", "maria", "tidb", "pg"} {
+			pg := fam == "pg"
 			for _, shp := range inspShapes {
 				for qi := 0; qi < 3; qi++ {
 					for _, kind := range sweepKinds {
@@ -297,6 +299,12 @@ func runInsp(w *out.W, tier string) {
 						}
 						for v := 0; v < 2; v++ {
 							g, cfg := inspGen(r, pg, shp, qi)
+							switch fam {
+							case "maria":
+								cfg.planner, cfg.plannerName = myPlanner(verMaria), fam
+							case "tidb":
+								cfg.planner, cfg.plannerName = myPlanner(verTiDB), fam
+							}
 							sch := sp(g.marker)
 							ref := g.tab(sch, "t_")
 							t := g.inspTab(sch, ref)
@@ -328,7 +336,7 @@ func runInsp(w *out.W, tier string) {
 								c.vals, c.vals2 = []string{"a", "b"}, []string{"a", "b", "c"}
 							}
 							w.Count("insp-kind:" + kind)
-							run(g, cfg, []dchange{c}, fmt.Sprintf("%s,%s,%s", map[bool]string{true: "pg", false: "mysql"}[pg], kind, shp))
+							run(g, cfg, []dchange{c}, fmt.Sprintf("%s,%s,%s", fam, kind, shp))
 						}
 					}
 				}
